@@ -162,7 +162,9 @@ pub fn generate(seed: u64, w: &World, with_big: bool, with_stalls: bool) -> Valu
     let usable: Vec<&Fixture> = w.fixtures.iter().filter(|f| !f.big || (with_big && seed % 8 == 0) || seed % 64 == 0).collect();
     let fx = *rng.pick(&usable);
     // what the endpoint has to say
-    let served = if rng.chance(3, 4) {
+    let served = if rng.chance(1, 40) {
+        json!({"kind": "deep"})
+    } else if rng.chance(3, 4) {
         json!({"kind": "schema", "fixture": fx.name, "pretty": rng.chance(1, 3), "errors": rng.chance(1, 8), "extensions": rng.chance(1, 8), "bare": rng.chance(1, 10)})
     } else {
         json!({"kind": "json", "text": *rng.pick(&JSON_BODIES)})
@@ -268,6 +270,9 @@ fn reply(rng: &mut Rng, status: u16, body: Value, plain: bool) -> Value {
         "segments": if unusual { rng.range(1, 4) } else { 1 },
         "extra_headers": if unusual && rng.chance(1, 3) { json!([["Connection", "close"]]) } else if unusual && rng.chance(1, 4) { json!([["X-Powered-By", "stub"], ["Set-Cookie", "a=b; Path=/"]]) } else { json!([]) },
         "rst": false,
+        "chunk_ext": unusual && rng.chance(1, 4),
+        "trailers": unusual && rng.chance(1, 4),
+        "odd_case": unusual && rng.chance(1, 4),
     })
 }
 
@@ -305,6 +310,18 @@ pub fn body_bytes(spec: &Value, served_json: &dyn Fn(&Value) -> Vec<u8>) -> Vec<
     match spec["kind"].as_str().unwrap_or("") {
         "schema" => served_json(spec),
         "json" => spec["text"].as_str().unwrap_or("null").as_bytes().to_vec(),
+        // valid JSON nested 100 levels deep (well inside what the shipped tool accepts)
+        "deep" => {
+            let mut s = String::new();
+            for i in 0..50 {
+                s.push_str(if i % 2 == 0 { "{\"a\":[" } else { "[{\"b\":" });
+            }
+            s.push_str("0");
+            for i in (0..50).rev() {
+                s.push_str(if i % 2 == 0 { "]}" } else { "}]" });
+            }
+            s.into_bytes()
+        }
         "garbage" => {
             let l = spec["label"].as_str().unwrap_or("");
             garbage_bodies().into_iter().find(|(k, _)| *k == l).map(|(_, b)| b).unwrap_or_default()
@@ -390,12 +407,19 @@ fn build_reply(r: &Value, served_json: &dyn Fn(&Value) -> Vec<u8>) -> Built {
             "chunked" => {
                 head.extend_from_slice(b"Transfer-Encoding: chunked\r\n");
                 let chunk = r["chunk"].as_u64().unwrap_or(64).max(1) as usize;
-                for c in body.chunks(chunk) {
-                    encoded.extend_from_slice(format!("{:x}\r\n", c.len()).as_bytes());
+                let ext = if r["chunk_ext"].as_bool().unwrap_or(false) { ";ext=1;q=\"x\"" } else { "" };
+                for (i, c) in body.chunks(chunk).enumerate() {
+                    // only on the first chunks: HTTP clients cap the total size of chunk extensions
+                    let ext = if i < 3 { ext } else { "" };
+                    encoded.extend_from_slice(format!("{:x}{}\r\n", c.len(), ext).as_bytes());
                     encoded.extend_from_slice(c);
                     encoded.extend_from_slice(b"\r\n");
                 }
-                encoded.extend_from_slice(b"0\r\n\r\n");
+                if r["trailers"].as_bool().unwrap_or(false) {
+                    encoded.extend_from_slice(b"0\r\nX-Checksum: abc123\r\nX-Other-Trailer: 1\r\n\r\n");
+                } else {
+                    encoded.extend_from_slice(b"0\r\n\r\n");
+                }
             }
             _ => {
                 if !http10 {
@@ -404,6 +428,12 @@ fn build_reply(r: &Value, served_json: &dyn Fn(&Value) -> Vec<u8>) -> Built {
                 encoded = body.clone();
             }
         }
+    }
+    if r["odd_case"].as_bool().unwrap_or(false) {
+        // header names are case-insensitive
+        let text = String::from_utf8_lossy(&head).to_string();
+        let text = text.replace("Content-Length:", "cOnTeNt-lEnGtH:").replace("Transfer-Encoding:", "TRANSFER-ENCODING:").replace("Content-Type:", "content-TYPE:").replace("Connection:", "cONNECTION:");
+        head = text.into_bytes();
     }
     head.extend_from_slice(b"\r\n");
     let head_len = head.len();
